@@ -894,3 +894,132 @@ Example help_same_run_needs_no_global_argument :
     help_target a [S_help; SERVER] = help_target a [SERVER; T_help]
   | Err _ => False end.
 Proof. vm_compute. repeat split; reflexivity. Qed.
+
+(* ================= the plain and the ANSI formatter RENDER the page ================= *)
+(* page_fits_plain / page_fits_ansi_visible above say: IF the page renders, it fits.  Here the success half, for the real
+   formatters (Proofs/HelpRenderLemmas.v).
+   What can go wrong.  Apart from the wrap width (needed_width), render_page fails only where the formatter - pastel's
+   colorize - refuses a message: an inline style with an unknown colour, or a closing tag of a known style that is not on
+   the (non-empty) style stack: "Incorrectly nested style tag found".  Whether it does depends on the tags the scanner finds
+   and on the stack, not on the decoration: effect sty a0 m sk is the stack after the message m (colorize_is_effect), the
+   same for the plain and the ANSI formatter (decoration_irrelevant).
+   What the formatter sees.  BlockLayout hands it ONE message per element: indentation, label, blanks up to the text column,
+   and the text as textwrap wrapped it - the lines joined by a line break and the blanks of the text column.  A tag pair that
+   ends up on two lines is still in one message: harmless (the effect acts piecewise across blanks and line breaks:
+   effect_across_blank).  But textwrap breaks a word that is longer than the line, and may break behind a hyphen; a word that
+   holds a tag can be cut INSIDE the tag, the tag is then ordinary text, its partner stays: the stack leaks, or a closing tag
+   finds nothing to close.  Rendering well-nested, registered markup therefore FAILS at some widths: page_renders_refuted
+   below.
+   "Good": a text is good at the wrap width w (text_ok) when it holds no "<" at all (then nothing can go wrong, whatever is
+   broken), or when (a) every word of it fits w (words_fit: the chunks textwrap.wrap splits it into; nothing is broken),
+   (b) no tag name holds a hyphen (no_hyphen_in_tags: no line break inside a tag) and (c) the text is neutral: the
+   formatter takes it whatever the stack and leaves the stack as it was.  An element is good (elem_ok) when its label is
+   neutral and does not end with a backslash, label and text are at least one blank apart, and the text is good at the
+   element's wrap width.  All of it is decidable: layout_okb. *)
+From Clikit Require Import Proofs.HelpRenderLemmas.
+
+Theorem colorize_is_effect : forall sty colored sk m,
+  match colorize sty colored sk m with
+  | Ok x => effect sty (ends_with_bsl m) m sk = Ok (fst x)
+  | Err k => effect sty (ends_with_bsl m) m sk = Err k
+  end.
+Proof. exact colorize_effect. Qed.
+Print Assumptions colorize_is_effect.
+Theorem decoration_irrelevant : forall sty sk m sk',
+  (exists o, colorize sty true sk m = Ok (sk', o)) <-> (exists o, colorize sty false sk m = Ok (sk', o)).
+Proof. exact colorize_ok_iff. Qed.
+Print Assumptions decoration_irrelevant.
+Theorem effect_across_blank : forall sty a0 a sep b sk, is_space sep = true ->
+  effect sty a0 (a ++ sep :: b) sk = (do s1 <- effect sty a0 a sk; effect sty false b s1).
+Proof. intros. apply effect_sep. now apply inert_space. Qed.
+Print Assumptions effect_across_blank.
+(* wrapping a text none of whose words has to be broken, and that has no hyphen in a tag name, keeps its effect: the lines,
+   one after the other, do to the stack what the text does *)
+Theorem wrap_keeps_effect : forall sty t w ls sk, wrap t w = Ok ls -> words_fit w t -> no_hyphen_in_tags (munge t) ->
+  effects sty ls sk = effect sty false (munge t) sk.
+Proof. intros sty t w ls sk Hw Hf Hn. apply (wrap_effect sty t w ls sk Hw Hf). now apply nh_cuts. Qed.
+Print Assumptions wrap_keeps_effect.
+
+(* For EVERY layout, width, style table and state of the style stack: a good layout renders on a terminal that leaves room for
+   one character behind every indentation and VISIBLE label (needed_width_for: at most needed_width) ... *)
+Theorem page_renders_plain : forall W f l, f_kind f = FPlain -> (needed_width_for (f_styles f) l <= W)%Z ->
+  layout_ok (f_styles f) W l -> exists s, render_page W f l = Ok s.
+Proof. exact page_renders_plain_lemma. Qed.
+Print Assumptions page_renders_plain.
+Theorem page_renders_ansi : forall W f l, is_ansi f -> (needed_width_for (f_styles f) l <= W)%Z ->
+  layout_ok (f_styles f) W l -> exists s, render_page W f l = Ok s.
+Proof. exact page_renders_ansi_lemma. Qed.
+Print Assumptions page_renders_ansi.
+Theorem needed_width_for_at_most : forall sty l, (needed_width_for sty l <= needed_width l)%Z.
+Proof. exact needed_width_for_le. Qed.
+Print Assumptions needed_width_for_at_most.
+(* ... and fits *)
+Theorem page_renders_and_fits_plain : forall W f l, f_kind f = FPlain -> one_line_labels l ->
+  (needed_width_for (f_styles f) l <= W)%Z -> layout_ok (f_styles f) W l ->
+  exists s, render_page W f l = Ok s /\ Forall (fun ln => (zlen ln <= W - 1)%Z) (split_on 10%N s).
+Proof. exact page_renders_and_fits_plain_lemma. Qed.
+Print Assumptions page_renders_and_fits_plain.
+Theorem page_renders_and_fits_ansi_visible : forall W f l, is_ansi f -> one_line_labels l -> clean_layout l ->
+  (needed_width_for (f_styles f) l <= W)%Z -> layout_ok (f_styles f) W l ->
+  exists s, render_page W f l = Ok s /\ Forall (fun ln => (zlen (strip_sgr ln) <= W - 1)%Z) (split_on 10%N s).
+Proof. exact page_renders_and_fits_ansi_lemma. Qed.
+Print Assumptions page_renders_and_fits_ansi_visible.
+(* the hypothesis is decidable *)
+Theorem layout_ok_decided : forall sty W l, layout_okb sty W l = true -> layout_ok sty W l.
+Proof. exact layout_okb_ok. Qed.
+Print Assumptions layout_ok_decided.
+(* a text without "<" is good at every width, whatever textwrap breaks *)
+Theorem tag_free_text_ok : forall sty w t, no_lt t -> text_ok sty w t.
+Proof. intros. now left. Qed.
+
+(* ---- examples ---- *)
+(* the command page with tagged descriptions (ex_tpage: <info>, <b> in the descriptions) is good from 41 columns on - the
+   identity formatter needs 44 - and renders and fits through both formatters; the hypotheses by computation *)
+Example ex_tpage_good : needed_width_for (f_styles ex_plainf) ex_tpage = 23%Z /\
+  layout_okb (f_styles ex_plainf) 41 ex_tpage = true /\ layout_okb (f_styles ex_plainf) 40 ex_tpage = false /\
+  layout_okb (f_styles ex_plainf) 80 ex_tpage = true.
+Proof. vm_compute. repeat split; reflexivity. Qed.
+Example ex_tpage_renders_plain : forall W, W = 41%Z \/ W = 80%Z ->
+  exists s, render_page W ex_plainf ex_tpage = Ok s /\ Forall (fun ln => (zlen ln <= W - 1)%Z) (split_on 10%N s).
+Proof.
+  intros W HW. apply page_renders_and_fits_plain; [reflexivity| | |].
+  - apply command_page_one_line; cbn; repeat constructor; try nl_char.
+  - destruct HW as [-> | ->]; vm_compute; discriminate.
+  - apply layout_ok_decided. destruct HW as [-> | ->]; vm_compute; reflexivity.
+Qed.
+Example ex_tpage_renders_ansi : forall W, W = 41%Z \/ W = 80%Z ->
+  exists s, render_page W ex_ansif ex_tpage = Ok s /\ Forall (fun ln => (zlen (strip_sgr ln) <= W - 1)%Z) (split_on 10%N s).
+Proof.
+  intros W HW. apply page_renders_and_fits_ansi_visible; [exact I| |exact (good_clean _ ex_ansi_good)| |].
+  - apply command_page_one_line; cbn; repeat constructor; try nl_char.
+  - destruct HW as [-> | ->]; vm_compute; discriminate.
+  - apply layout_ok_decided. destruct HW as [-> | ->]; vm_compute; reflexivity.
+Qed.
+(* at 30 columns the page still renders (ex_plain_renders above) though words have to be broken: the condition is sufficient,
+   not necessary *)
+
+(* REFUTED without "every word fits".  A paragraph <u>aaaaaaaaaaaaaaaaaaaaaaaaaaaaaa</u> (30 letters) and an option
+   <c1>--</c1> with the text "Force the operation <b>(default: 3)</b>": every tag well nested and registered, every label and
+   text neutral; 17 columns are enough for the identity formatter (needed_width), 8 for the plain one.  At 18 columns the
+   paragraph is wrapped at 17: "<u>aaaaaaaaaaaaaa" / "aaaaaaaaaaaaaaaa<" / "/u>" - the closing tag is cut, the style u stays
+   open; the option's text is wrapped at 5: "<b>(d" ... ")</b>" keeps both tags, but with a little less room "<b>" is cut and
+   "</b>" is not; here the opening tag of the text is cut ("... <" / "b>(de"), the closing one is found, the style b is not on
+   the stack [u]: ValueError.  At 17 and 19 columns the page renders.  Observed alike on the Python code (BlockLayout with a
+   Paragraph and a LabeledParagraph on a BufferedIO of width 18, PlainFormatter and AnsiFormatter over the DefaultStyleSet:
+   ValueError "Incorrectly nested style tag found."; widths 17 and 19: no error). *)
+Definition ex_cut_layout : layout :=
+  [(0%nat, EPara ([60;117;62]%N ++ repeat 97%N 30 ++ [60;47;117;62]%N));
+   (2%nat, ELab [60;99;49;62;45;45;60;47;99;49;62]%N (* <c1>--</c1> *)
+                [70;111;114;99;101;32;116;104;101;32;111;112;101;114;97;116;105;111;110;32;60;98;62;40;100;101;102;97;117;108;116;58;32;51;41;60;47;98;62]%N
+                (* Force the operation <b>(default: 3)</b> *) 2 true)].
+Example page_renders_refuted :
+  needed_width ex_cut_layout = 17%Z /\ needed_width_for (f_styles ex_plainf) ex_cut_layout = 8%Z /\
+  (* labels and texts are neutral, no hyphen in a tag: all that is missing at 18 columns is that the words fit *)
+  forallb (fun x => neutralb (f_styles ex_plainf) (elem_label (snd x)) && neutralb (f_styles ex_plainf) (munge (elem_text (snd x)))
+                    && nhb (munge (elem_text (snd x)))) ex_cut_layout = true /\
+  layout_okb (f_styles ex_plainf) 18 ex_cut_layout = false /\ layout_okb (f_styles ex_plainf) 38 ex_cut_layout = true /\
+  render_page 18 ex_plainf ex_cut_layout = Err ValueError /\ render_page 18 ex_ansif ex_cut_layout = Err ValueError /\
+  (match render_page 17 ex_plainf ex_cut_layout, render_page 19 ex_plainf ex_cut_layout, render_page 38 ex_plainf ex_cut_layout with
+   | Ok _, Ok _, Ok _ => True | _, _, _ => False end) /\
+  render_page 18 ex_null ex_cut_layout <> Err ValueError.
+Proof. vm_compute. repeat split; try reflexivity. discriminate. Qed.
